@@ -256,17 +256,29 @@ theorem allGe_self (l : List Rat) : allGe l l = true := by
   | cons a t ih => simp only [allGe] at ih; simp [allGe, ih]
 
 theorem pboxCheck_ok {l r l' r' : List Rat} (h : pboxCheck l r = .ok (l', r')) :
-    l' = l ∧ r' = r ∧ l.length = r.length ∧ isIncreasing l = true ∧ isIncreasing r = true := by
+    l' = l ∧ r' = r ∧ l.length = r.length ∧ isIncreasing l = true ∧ isIncreasing r = true ∧ anyGt l r = false := by
   unfold pboxCheck at h
   by_cases hlen : l.length ≠ r.length
   · rw [if_pos hlen] at h; cases h
   · rw [if_neg hlen] at h
-    by_cases hinc : (isIncreasing l && isIncreasing r) = true
-    · rw [if_pos hinc] at h
-      simp only [Bool.and_eq_true] at hinc
-      injection h with h; injection h with h1 h2
-      exact ⟨h1.symm, h2.symm, not_not.mp hlen, hinc.1, hinc.2⟩
-    · rw [if_neg hinc] at h; cases h
+    by_cases hinc : (!(isIncreasing l && isIncreasing r)) = true
+    · rw [if_pos hinc] at h; cases h
+    · rw [if_neg hinc] at h
+      by_cases hx : anyGt l r = true
+      · rw [if_pos hx] at h; cases h
+      · rw [if_neg hx] at h
+        simp only [Bool.not_eq_true', Bool.not_eq_false, Bool.and_eq_true] at hinc
+        injection h with h; injection h with h1 h2
+        exact ⟨h1.symm, h2.symm, not_not.mp hlen, hinc.1, hinc.2, by simpa using hx⟩
+
+/-- a returned p-box does not cross: `left ≤ right` at every step -/
+theorem anyGt_false_forall2 : ∀ (l r : List Rat), l.length = r.length → anyGt l r = false → List.Forall₂ (· ≤ ·) l r
+  | [], [], _, _ => .nil
+  | [], _ :: _, h, _ => by simp at h
+  | _ :: _, [], h, _ => by simp at h
+  | a :: l, b :: r, h, hg => by
+    simp only [anyGt, List.zipWith_cons_cons, List.any_cons, Bool.or_eq_false_iff, id, decide_eq_false_iff_not, not_lt] at hg
+    exact .cons hg.1 (anyGt_false_forall2 l r (by simpa using h) (by simpa [anyGt] using hg.2))
 
 /-- the components `pboxInit` returns are its two arguments, possibly exchanged -/
 theorem pboxInit_cases {L R l r : List Rat} (h : pboxInit L R = .ok (l, r)) :
@@ -280,17 +292,17 @@ theorem pboxInit_cases {L R l r : List Rat} (h : pboxInit L R = .ok (l, r)) :
     obtain ⟨h1, h2, _⟩ := pboxCheck_ok h
     exact Or.inl ⟨h1, h2⟩
 
-/-- a returned p-box has increasing bounds of equal length -/
+/-- a returned p-box has increasing bounds of equal length that do not cross -/
 theorem pboxInit_wf {L R l r : List Rat} (h : pboxInit L R = .ok (l, r)) :
-    l.length = r.length ∧ isIncreasing l = true ∧ isIncreasing r = true := by
+    l.length = r.length ∧ isIncreasing l = true ∧ isIncreasing r = true ∧ List.Forall₂ (· ≤ ·) l r := by
   unfold pboxInit at h
   by_cases hg : allGe L R = true
   · rw [if_pos hg] at h
-    obtain ⟨h1, h2, h3, h4, h5⟩ := pboxCheck_ok h
-    subst h1; subst h2; exact ⟨h3, h4, h5⟩
+    obtain ⟨h1, h2, h3, h4, h5, h6⟩ := pboxCheck_ok h
+    rw [h1, h2]; exact ⟨h3, h4, h5, anyGt_false_forall2 _ _ h3 h6⟩
   · rw [if_neg hg] at h
-    obtain ⟨h1, h2, h3, h4, h5⟩ := pboxCheck_ok h
-    subst h1; subst h2; exact ⟨h3, h4, h5⟩
+    obtain ⟨h1, h2, h3, h4, h5, h6⟩ := pboxCheck_ok h
+    rw [h1, h2]; exact ⟨h3, h4, h5, anyGt_false_forall2 _ _ h3 h6⟩
 
 /-- whatever `pboxInit` returns still brackets every row bracketed by its arguments -/
 theorem pboxInit_brackets {L R l r X : List Rat} (h : pboxInit L R = .ok (l, r))
